@@ -21,6 +21,14 @@ type rawBytes []byte
 
 func (r rawBytes) Encode(b *bin.Buffer) error { b.Put(r); return nil }
 
+// failingEnc writes its bytes and then reports an encoding error.
+type failingEnc []byte
+
+func (f failingEnc) Encode(b *bin.Buffer) error {
+	b.Put(f)
+	return fmt.Errorf("unable to encode: field is nil")
+}
+
 func showMsg(d *crypto.EncryptedMessageData, err error) string {
 	if err != nil && d == nil {
 		return "err " + ErrTag(err)
@@ -163,6 +171,13 @@ func ReuseCase(c *hc.Ctx, q *Queue, prop string) {
 				return crypto.NewClientCipher(bytes.NewReader(rnd))
 			}
 			return crypto.NewServerCipher(bytes.NewReader(rnd))
+		}
+		if r.Chance(30) { // an error path first: a Message whose Encode fails half-way must leave no trace in the reused buffer
+			bad := d
+			bad.Message = failingEnc(r.Bytes(4 * r.Range(0, 20)))
+			if err := mk().Encrypt(ak, bad, out); err == nil {
+				c.Fail("encode-error-swallowed", "Cipher.Encrypt with a Message whose Encode fails", "returned nil")
+			}
 		}
 		freshBuf := &bin.Buffer{}
 		e1 := mk().Encrypt(ak, d, freshBuf)
